@@ -13,7 +13,7 @@ TEXT = {
  "C07": ("model_checking", "explicit-state search over event histories (full tree + de-duplicated BFS) replayed on the real LAN object, with a wire monitor (I1..I5) evaluated in every state; long session > 4096 / > 65536 packets", "explicit-state search over operation histories with a wire invariant monitor"),
  "C08": ("model_checking", "all 7^r reply-delay patterns for r=1..4 vs. a reference model of the retry contract; every single fault and ordered pair of faults incl. cancellation at every interval, from 4 start states, followed by an honest exchange", "exhaustive schedule / fault-sequence enumeration vs. reference model"),
  "C09": ("fault_enumeration", "full product of per-field alphabets of V2 and V3 replies at every protocol phase through LAN.send / authenticate / _send_command / refresh; outcome classes only", "grammar-based exhaustive fault enumeration"),
- "C10": ("exploration", "all setpoints x modes x units, all fan and humidity bytes, all flag combinations per byte, single-field sweeps and a pairwise design through apply(), also in 7 contexts incl. settings applied while a refresh() of the same object is in flight; vendor-layout decode of the received 0x40 body must equal the request", "bounded exhaustive input enumeration vs. vendor bit layout"),
+ "C10": ("exploration", "all setpoints x modes x units, all fan and humidity bytes, all flag combinations per byte, single-field sweeps and a pairwise design through apply(); vendor-layout decode of the received 0x40 body must equal the request", "bounded exhaustive input enumeration vs. vendor bit layout"),
  "C11": ("exploration", "all temperature bytes x tenths x sensor x unit, 32x32 setpoint codes, all 256 values of every flag byte, all lengths, both check styles, reported by the simulated device to a fresh client", "bounded exhaustive input enumeration vs. vendor bit layout"),
  "C12": ("model_checking", "every command class with every parameter value fed to an independent device-side parser; long mixed operation histories on the wire with injected retransmissions and several initial counters for the message-id rule", "exhaustive input enumeration + long operation histories against an independent frame parser"),
  "C13": ("fault_enumeration", "every byte position x all 255 substitutes of every response kind, with and without checksum fix-up; independent must-drop oracle; state and capability attributes must be unchanged", "exhaustive single-byte fault enumeration with an independent accept/drop oracle"),
